@@ -310,7 +310,7 @@ def eval_jobs(ck: Ck, jobs: list) -> list:
     from concurrent.futures import ThreadPoolExecutor
     if not jobs:
         return []
-    with ThreadPoolExecutor(max_workers=min(6, len(jobs))) as ex:
+    with ThreadPoolExecutor(max_workers=min(8, len(jobs))) as ex:
         futs = [ex.submit(ck.coq_eval, IMPORTS, exprs if isinstance(exprs, list) else [exprs], f'{name}_{k}', 900, PRE)
                 for k, (name, exprs) in enumerate(jobs)]
         return [f.result() for f in futs]
@@ -577,8 +577,8 @@ def corr_read_flag(ck: Ck, shape_recognised: bool):
             n.casefold() in m for n in names) else '/default' if any(n.casefold() in kvmod.FLAGS_DEFAULT for n in names)
             else '/unknown'))
     jobs, parts = [], []
-    for at in range(0, len(cases), 500):
-        part = list(range(at, min(at + 500, len(cases))))
+    for at in range(0, len(cases), 1000):
+        part = list(range(at, min(at + 1000, len(cases))))
         lit = coq_list(
             f'(([{"; ".join(f"({coq_chars(k)}, {coq_bool(bool(v))})" for k, v in cases[i][0].items())}], '
             f'[{"; ".join(f"({coq_chars(a)}, {coq_chars(b)})" for a, b in cases[i][1].items())}]), '
@@ -813,7 +813,7 @@ def corr_tokens(ck: Ck) -> None:
     else:
         shards = [(bits, 0, 4 if bits in (0, 2, 6, 10, 15) else 3) for bits in range(16)] + [(2, 1, 3), (6, 1, 3)]
     shards += [(bits, 0, 'long') for bits in range(16)] + [(2, 1, 'long')]
-    longw = long_words(ck.seed, ck.budget(250, 2500))
+    longw = long_words(ck.seed, ck.budget(250, 1000))
     lens = [s_[2] for s_ in shards if s_[2] != 'long']
 
     def words_of(n):
@@ -1136,7 +1136,7 @@ SEARCH_CORPUS = [
 
 
 def search(ck: Ck) -> None:
-    n = ck.budget(2500, 15000)
+    n = ck.budget(2500, 12000)
     found: dict[str, tuple] = {}
     shrinks: dict[str, int] = {}
     shrunk_docs: set = set()
